@@ -16,6 +16,10 @@
 (* and `bleft` reports that a with construct_dag() statement was left (exc: through an exception that the refused call, an      *)
 (* evaluate() or the body itself raised; active: task_graph() is not None afterwards); after an exceptional exit the history   *)
 (* goes on with calls outside any block, which the same actions judge                                                          *)
+(* assembled pipelines: desc.asm / desc.easm state how the harness put the lazy pipeline / its eager twin together (parts joined   *)
+(* by join or |, copies; PipelineLazy: assembly).  Nothing else changes: `lbegin` is a call on the pipeline assembled per desc.asm *)
+(* (LBegin is enabled only if that assembly yields a lazy pipeline - and then the call must behave like one: a user function that  *)
+(* runs while the "handle" is built meets phase "building"), `begin` a call on the one assembled per desc.easm                     *)
 (* `call` events are the user-function invocations in log order, so an invocation that happens while the     *)
 (* handle is built, or during a second evaluate(), meets a state in which no Call step is enabled.           *)
 EXTENDS PipelineLazy, Json, IOUtils, TLCExt
